@@ -13,7 +13,7 @@ structure St where
   index : Nat := 0
   backends : List Addr := []      -- rb.backends (order matters)
   keys : List Addr := []          -- key set of rb.backendMap
-  deriving Repr, BEq, DecidableEq
+  deriving Repr, DecidableEq
 
 /-- `AddBackend`: append to the list, insert into the map. -/
 def add (s : St) (a : Addr) : St :=
@@ -57,7 +57,7 @@ inductive Op where
   | add (a : Addr)
   | remove (a : Addr)
   | dispatch
-  deriving Repr, BEq, DecidableEq
+  deriving Repr, DecidableEq
 
 /-- One operation; the observable is the dispatch target (`none` for add/remove/drop). -/
 def step (s : St) : Op → St × Option Addr
